@@ -21,6 +21,7 @@ import (
 	"runtime/debug"
 	"strings"
 	"sync"
+	"sync/atomic"
 	"testing"
 	"time"
 
@@ -53,6 +54,25 @@ func TestMain(m *testing.M) {
 		"L6 (real sockets) runs in the thorough tier only; WebRTC and WebTransport are not covered",
 	)
 	hx.Main(m)
+}
+
+// lowerLayerFailed is set once a single-layer test (L1-L4) has failed in this process.
+// The stacked tests (L5, L6) are built from those layers: after such a failure they add
+// no information, and a broken lower layer can make a goroutine of an upper layer spin
+// (e.g. yamux's receive loop over a session whose Read keeps returning (0, nil)), which
+// would turn a clear violation into an inconclusive bubble hang.
+var lowerLayerFailed atomic.Bool
+
+func noteFailure(t *testing.T) {
+	if t.Failed() {
+		lowerLayerFailed.Store(true)
+	}
+}
+
+func skipIfLowerLayerFailed(t *testing.T) {
+	if lowerLayerFailed.Load() {
+		t.Skip("a single-layer test already failed in this process; the stacked run is skipped")
+	}
 }
 
 // ---------------------------------------------------------------------------
